@@ -164,7 +164,7 @@ async def _reconcile_steps(
                 _condition_helper(
                     condition_type="Ready",
                     thing_name=f"Workflow {workflow_key}",
-                    outcome=timeout_outcome,
+                    outcome=timeout_outcome.result,
                     workflow_key=workflow_key,
                 )
             )
@@ -182,7 +182,7 @@ async def _reconcile_steps(
                 _condition_helper(
                     condition_type="Ready",
                     thing_name=f"Workflow {workflow_key}",
-                    outcome=error_outcome,
+                    outcome=error_outcome.result,
                     workflow_key=workflow_key,
                 )
             )
